@@ -1,5 +1,7 @@
 (* E3 -- C14 assembled: stutter + answer + frame, over reachable states and over sequential histories. *)
 From Coq Require Import Lia.
+(* the E2 invariant is used (qualified, not imported) by the graceful-shutdown section at the end *)
+From FL Require Engine.E2Base Engine.E2Step Engine.E2Inv Engine.E2Main.
 From FL Require Import Engine.Model Engine.Spec Engine.E3Base Engine.E3Events Engine.E3Dry Engine.E3Frame.
 Open Scope Z_scope.
 
@@ -223,4 +225,41 @@ Proof.
   intros s t q R Q Hn. destruct (e3_answer s t q Q Hn (fun _ => e3_fresh_uid s R)) as (th & G & A).
   exists th. split; [exact G|]. rewrite A. destruct (answer_not_read_failed (persisted s) (v_lasttx s) q) as [N1 N2].
   split; intros E; inversion E as [E']; [exact (N1 E')|exact (N2 E')].
+Qed.
+
+(* ---- graceful shutdown (AClose / ACloseOk): no event for an entry the close drops -------------------------------
+   The E3 invariant says that the publisher of every event has FINISHED ([inv_ev_fin]); that the owner of an entry
+   in flight (in the batch inside the store call, or queued in the batcher) has NOT -- it is parked at [PAppended] or
+   [PWait] -- is a clause of the E2 invariant ([E2Inv.b_own]), which is used here rather than proved again. *)
+Lemma e3_inflight_owner_waits : forall s, reachable s -> forall e, In e (E2Base.inflight s) ->
+  exists th, get_thread (threads s) (e_owner e) = Some th /\ (t_pc th = PAppended \/ t_pc th = PWait).
+Proof.
+  intros s R e He. pose proof (E2Main.e2_inv_reachable s R) as I.
+  assert (Ha : In e (E2Base.all_entries s)) by (unfold E2Base.all_entries; apply in_or_app; right; exact He).
+  destruct (E2Inv.b_own s (E2Main.i_b s I) e Ha) as (a & Ga & _ & _ & Hw).
+  destruct (Hw He) as (Hw1 & _).
+  destruct (E2Base.e2_get_of_gth _ _ _ Ga) as (th & Hth & ->). exists th. split; [exact Hth|].
+  cbn in Hw1. destruct (t_pc th); try discriminate Hw1; auto.
+Qed.
+
+(* neither the owner of a queued entry (dropped by the close) nor the owner of an entry of the batch in the store call
+   (written or not, never acknowledged by the close) owns an event after the close *)
+Theorem e3_close_no_event_for_inflight : forall s a s', a = AClose \/ a = ACloseOk -> reachable s ->
+  step s a = Some s' ->
+  forall e, In e (v_pending s) \/ (exists b, v_batch s = Some b /\ In e b) ->
+  forall ev, In ev (published s') -> ev_tid ev <> e_owner e.
+Proof.
+  intros s a s' Ha R H e He ev Hin. rewrite (e3_close_publishes_nothing s a s' Ha H) in Hin.
+  assert (Hi : In e (E2Base.inflight s)).
+  { unfold E2Base.inflight. apply in_or_app. destruct He as [He|(b & Hb & He)]; [right; exact He|left].
+    rewrite Hb. exact He. }
+  destruct (e3_inflight_owner_waits s R e Hi) as (th & Hg & Hp).
+  apply (e3_unfinished_no_event s (e_owner e) th R Hg); [|exact Hin].
+  destruct Hp as [Hp|Hp]; rewrite Hp; discriminate.
+Qed.
+
+Theorem e3_no_event_for_dropped_entry : forall s a s', a = AClose \/ a = ACloseOk -> reachable s ->
+  step s a = Some s' -> forall e, In e (v_pending s) -> forall ev, In ev (published s') -> ev_tid ev <> e_owner e.
+Proof.
+  intros s a s' Ha R H e He. apply (e3_close_no_event_for_inflight s a s' Ha R H). left. exact He.
 Qed.
